@@ -32,3 +32,25 @@ pub fn rust_qualified_type(module: Option<&str>, ty: &str) -> String {
 pub fn int_type_token(min: Option<i128>, max: Option<i128>, ext: bool) -> String {
     rasn().int_type_token(min, max, ext).to_string()
 }
+
+use crate::intermediate::{
+    constraints::{SetOperation, SubtypeElements},
+    error::GrammarError,
+    CharacterStringType,
+};
+
+pub fn fold_constraint_set(
+    set: &SetOperation,
+    string_type: Option<CharacterStringType>,
+    range_constraint: bool,
+) -> Result<Option<SubtypeElements>, GrammarError> {
+    crate::intermediate::encoding_rules::per_visible::verif_fold_constraint_set(
+        set,
+        string_type.map(|t| t.character_set()),
+        range_constraint,
+    )
+}
+
+pub fn character_set(string_type: CharacterStringType) -> Vec<char> {
+    string_type.character_set().values().copied().collect()
+}
